@@ -164,6 +164,26 @@ func TestC05(t *testing.T) {
 		case "same_id":
 			keys = []*hello.Key{key}
 		}
+		if len(keys) > 0 && rapid.IntRange(0, 3).Draw(t, "unloadable_key_in_set") == 0 {
+			// the operator's key file also holds a key this library cannot load (a config for
+			// DHKEM(P-256), which only X25519 builds lack) under a config id the hello does not
+			// name: it is never a candidate, so it changes nothing
+			helloID := -1
+			for _, e := range h.Exts {
+				if e.Type == hello.ExtECH && len(e.Data) >= 6 && e.Data[0] == 0 {
+					helloID = int(e.Data[5])
+				}
+			}
+			bad := *drawKey(t, "unloadable", (helloID+1+rapid.IntRange(0, 253).Draw(t, "unloadable_idoff"))%256, "p256.example")
+			pub := append([]byte{4}, hello.GenBytes(t, "unloadable_pub", 64)...)
+			bad.Config = hello.ConfigBytes(bad.ID, 0x0010, pub, bad.Suites, 28, []byte(bad.PublicName))
+			if rapid.Bool().Draw(t, "unloadable_first") {
+				keys = append([]*hello.Key{&bad}, keys...)
+			} else {
+				keys = append(keys, &bad)
+			}
+			cl0 = append(cl0, "unloadable_key_in_set")
+		}
 		recVer := rapid.SampledFrom([]uint16{0x0301, 0x0303}).Draw(t, "recver")
 		first := hello.Record(22, recVer, msg)
 		clientRecs := genRecords(t, "client", 5)
